@@ -21,22 +21,23 @@ type Params struct {
 
 // Result is what one run reports.
 type Result struct {
-	Params    Params         `json:"params"`
-	V         *Violation     `json:"violation,omitempty"`
-	Digest    uint64         `json:"digest"`
-	Class     string         `json:"class"`
-	Steps     int            `json:"steps"`
-	SimMs     int64          `json:"sim_ms"`
-	NOps      int            `json:"n_ops"`
-	Stats     map[string]int `json:"stats,omitempty"`
-	Faults    map[string]int `json:"faults,omitempty"`
-	Sample    string         `json:"sample,omitempty"`
-	Incon     string         `json:"inconclusive,omitempty"`
-	Ops       []string       `json:"ops,omitempty"`
-	Config    string         `json:"config,omitempty"`
-	Decisions int            `json:"decisions,omitempty"`
-	Owned     bool           `json:"owned,omitempty"` // the violation belongs to the property being checked
-	Cases     int            `json:"cases,omitempty"` // evaluations inside this run (crash states, fault points)
+	Params    Params            `json:"params"`
+	V         *Violation        `json:"violation,omitempty"`
+	Digest    uint64            `json:"digest"`
+	Class     string            `json:"class"`
+	Steps     int               `json:"steps"`
+	SimMs     int64             `json:"sim_ms"`
+	NOps      int               `json:"n_ops"`
+	Stats     map[string]int    `json:"stats,omitempty"`
+	Faults    map[string]int    `json:"faults,omitempty"`
+	Sample    string            `json:"sample,omitempty"`
+	Incon     string            `json:"inconclusive,omitempty"`
+	Ops       []string          `json:"ops,omitempty"`
+	Config    string            `json:"config,omitempty"`
+	Decisions int               `json:"decisions,omitempty"`
+	Owned     bool              `json:"owned,omitempty"` // the violation belongs to the property being checked
+	Cases     int               `json:"cases,omitempty"` // evaluations inside this run (crash states, fault points)
+	Known     map[string]string `json:"known,omitempty"` // listed findings met by this run (pattern -> example)
 }
 
 // Profiles per property for the seq engine.
@@ -45,7 +46,9 @@ var Profiles = map[string]*Profile{
 	"C02": {Name: "C02", MaxOps: 25, UniqueMax: 1, IndexPct: 45, CasePct: 10, W: map[string]int{"sweep": 18, "sdel": 10, "reads": 2}},
 	"C03": {Name: "C03", MaxOps: 30, UniqueMin: 1, UniqueMax: 3, IndexPct: 10, CasePct: 25, W: map[string]int{"update": 40, "del": 14, "reopen": 8, "sweep": 2, "many": 8}},
 	"C04": {Name: "C04", MaxOps: 25, UniqueMax: 2, IndexPct: 40, CasePct: 15, W: map[string]int{"reopen": 16, "abandon": 8}},
+	"C05": {Name: "C05", MaxOps: 12, ForceSync: true, UniqueMax: 1, IndexPct: 25, CasePct: 10, W: map[string]int{"update": 35, "del": 12, "many": 8, "bulk": 4, "reopen": 2, "abandon": 0, "sweep": 1, "reads": 1, "create": 1, "sdel": 4}},
 	"C06": {Name: "C06", MaxOps: 25, UniqueMin: 1, UniqueMax: 2, IndexPct: 25, CasePct: 15, W: map[string]int{"update": 35}},
+	"C06F": {Name: "C06F", MaxOps: 10, ForceSync: true, UniqueMax: 1, IndexPct: 25, CasePct: 10, W: map[string]int{"update": 35, "del": 12, "many": 8, "bulk": 4, "reopen": 1, "abandon": 0, "sweep": 1, "reads": 1, "create": 1, "sdel": 0}},
 	"C07": {Name: "C07", MaxOps: 20, UniqueMin: 0, UniqueMax: 2, IndexPct: 20, CasePct: 15, W: map[string]int{"many": 35, "bulk": 25, "save": 15, "update": 10}},
 	"C13": {Name: "C13", MaxOps: 25, UniqueMax: 1, IndexPct: 60, CasePct: 10, W: map[string]int{"sweep": 20}},
 	"C14": {Name: "C14", MaxOps: 25, UniqueMax: 1, IndexPct: 20, CasePct: 10, Scribble: true, W: map[string]int{"sweep": 8, "reads": 10, "resave": 10}},
@@ -61,7 +64,8 @@ var Owns = map[string][]string{
 	"C02": {"search"},
 	"C03": {"unique"},
 	"C04": {"reopen"},
-	"C06": {"reject"},
+	"C05": {"crash"},
+	"C06": {"reject", "iofault"},
 	"C07": {"batch"},
 	"C10": {"async"},
 	"C11": {"control"},
@@ -167,6 +171,10 @@ func Run(p Params) *Result {
 				r.V.Msg = "only when the caller mutates objects it passed in or got back: " + r.V.Msg
 			}
 		}
+	case "crash":
+		r = RunCrash(p)
+	case "iofault":
+		r = RunIOFault(p)
 	default:
 		return &Result{Params: p, Incon: "unknown scenario " + p.Scenario}
 	}
